@@ -3,6 +3,7 @@
 
 import functools
 import itertools
+import math
 import numbers
 import typing
 import warnings
@@ -1145,12 +1146,19 @@ def _reduce_unrelated_vars(op, arg, reduced_vars):
                 for v in factor_vars
                 if v.dtype != "real"
             ],
+            1,
         )
-        for add_op, mul_op in ops.DISTRIBUTIVE_OPS:
-            if add_op is op:
-                arg = mul_op(arg, multiplicity).reduce(op, reduced_vars)
-                return arg, None
-        raise NotImplementedError(f"Cannot reduce {op}")
+        # Reducing over variables that arg does not mention combines
+        # ``multiplicity`` many copies of arg.
+        if op in (ops.max, ops.min, ops.and_, ops.or_):
+            pass  # idempotent
+        elif op in (ops.logaddexp, ops.sample):
+            arg = arg + math.log(multiplicity)
+        elif op in ops.PRODUCT_TO_POWER:
+            arg = ops.PRODUCT_TO_POWER[op](arg, multiplicity)
+        else:
+            raise NotImplementedError(f"Cannot reduce {op}")
+        return arg.reduce(op, reduced_vars), None
     return arg, frozenset(v.name for v in reduced_vars)
 
 
